@@ -2102,6 +2102,12 @@ def disk_partitions(all=False):
     return _psplatform.disk_partitions(all)
 
 
+# Held by disk_io_counters() and net_io_counters() while they take a
+# sample and feed it to the nowrap cache (nowrap=True only), so that
+# the cache sees the samples in the order they were taken.
+_nowrap_lock = threading.Lock()
+
+
 def disk_io_counters(perdisk=False, nowrap=True):
     """Return system disk I/O statistics as a namedtuple including
     the following fields:
@@ -2135,7 +2141,6 @@ def disk_io_counters(perdisk=False, nowrap=True):
     executed first otherwise this function won't find any disk.
     """
     kwargs = dict(perdisk=perdisk) if LINUX else {}
-    rawdict = _psplatform.disk_io_counters(**kwargs)
     # On Linux the system-wide form is computed from whole disks only
     # (partitions are skipped), so the two forms see different sets of
     # devices: keep their nowrap histories apart, else a system-wide
@@ -2145,13 +2150,20 @@ def disk_io_counters(perdisk=False, nowrap=True):
         if perdisk
         else 'psutil.disk_io_counters'
     )
+    if nowrap:
+        # Take the sample and feed it to the nowrap cache atomically,
+        # else a caller preempted in between may be overtaken by
+        # another one and its (older) sample is taken for a wrap. An
+        # empty dict is fed as well: it tells that all disks went away.
+        with _nowrap_lock:
+            rawdict = _psplatform.disk_io_counters(**kwargs)
+            wrapdict = _wrap_numbers(rawdict, name)
+    else:
+        rawdict = _psplatform.disk_io_counters(**kwargs)
     if not rawdict:
-        if nowrap:
-            # let the nowrap cache know that all disks went away
-            _wrap_numbers(rawdict, name)
         return {} if perdisk else None
     if nowrap:
-        rawdict = _wrap_numbers(rawdict, name)
+        rawdict = wrapdict
     nt = getattr(_psplatform, "sdiskio", _common.sdiskio)
     if perdisk:
         for disk, fields in rawdict.items():
@@ -2201,14 +2213,20 @@ def net_io_counters(pernic=False, nowrap=True):
     "net_io_counters.cache_clear()" can be used to invalidate the
     cache.
     """
-    rawdict = _psplatform.net_io_counters()
+    if nowrap:
+        # Take the sample and feed it to the nowrap cache atomically,
+        # else a caller preempted in between may be overtaken by
+        # another one and its (older) sample is taken for a wrap. An
+        # empty dict is fed as well: it tells that all NICs went away.
+        with _nowrap_lock:
+            rawdict = _psplatform.net_io_counters()
+            wrapdict = _wrap_numbers(rawdict, 'psutil.net_io_counters')
+    else:
+        rawdict = _psplatform.net_io_counters()
     if not rawdict:
-        if nowrap:
-            # let the nowrap cache know that all NICs went away
-            _wrap_numbers(rawdict, 'psutil.net_io_counters')
         return {} if pernic else None
     if nowrap:
-        rawdict = _wrap_numbers(rawdict, 'psutil.net_io_counters')
+        rawdict = wrapdict
     if pernic:
         for nic, fields in rawdict.items():
             rawdict[nic] = _common.snetio(*fields)
